@@ -801,6 +801,67 @@ def stream_complex(ctx):
             return
 
 
+def stream_scaling(ctx):
+    """the operator array is linear in the coefficients: scaling every coefficient by a power of two
+    (exact in floating point, down to 2^-200) scales every stored entry by exactly that factor — in
+    particular genuinely small matrix elements are neither rounded away nor pruned"""
+    import symmray as sr
+
+    rng = ctx.rng
+    jobs = []
+    for sym in SYMS:
+        for _ in range(2 if ctx.tier == "quick" else 10):
+            jobs.append(("hubbard", sym, (rng.randint(1, 5), 6 * rng.randint(1, 4), 6 * rng.randint(1, 4),
+                                          6 * rng.randint(1, 4), 6 * rng.randint(-4, -1), rng.randint(1, 3),
+                                          rng.randint(1, 3))))
+            if sym in ("Z2", "U1"):
+                jobs.append(("hubbard_spinless", sym, (rng.randint(1, 5), rng.randint(1, 9), 6 * rng.randint(1, 4),
+                                                        6 * rng.randint(-4, -1), rng.randint(1, 3), rng.randint(1, 3))))
+    for name, sym, p in jobs:
+        k = rng.choice([20, 41, 45, 60, 200])
+        sc = 2.0 ** -k
+        ncoef = len(p) - 2
+        ps = tuple(float(v) * sc for v in p[:ncoef]) + tuple(p[ncoef:])
+        # mixed magnitudes: only the hopping is tiny, next to O(1) interactions
+        pm = (float(p[0]) * sc,) + tuple(p[1:])
+        ctx.evaluations += 1
+        ctx.stat(f"f:scaling:{name}:{sym}")
+        case = dict(stream="scaling", name=name, sym=sym, params=list(p), log2_scale=-k)
+        try:
+            G, Gs, Gm = call_builtin(name, sym, p), call_builtin(name, sym, ps), call_builtin(name, sym, pm)
+            G0 = call_builtin(name, sym, (0,) + tuple(p[1:]))
+        except Exception as e:  # noqa
+            ctx.violation(f"{name} builder raised {type(e).__name__}: {e}", case, op=name)
+            return
+        bad = None
+        ref = {s_: np.asarray(b) for s_, b in G.phase_sync().blocks.items()}
+        got = {s_: np.asarray(b) for s_, b in Gs.phase_sync().blocks.items()}
+        for s_, b in ref.items():
+            g = got.get(s_)
+            if g is None:
+                if np.any(b != 0):
+                    bad = f"sector {s_} disappears when all coefficients are scaled by 2^-{k}"
+                    break
+            elif not np.array_equal(g, b * sc):
+                bad = f"sector {s_} is not scaled exactly by 2^-{k}"
+                break
+        if bad is None:
+            # hopping part alone: G(t*sc, rest) - G(0, rest) == sc * (G(t, rest) - G(0, rest)) up to rounding of
+            # the O(1) entries; compare only entries where the rest contributes nothing
+            r0 = {s_: np.asarray(b) for s_, b in G0.phase_sync().blocks.items()}
+            gm = {s_: np.asarray(b) for s_, b in Gm.phase_sync().blocks.items()}
+            for s_, b in ref.items():
+                z = r0.get(s_, np.zeros_like(b))
+                pure = (z == 0) & (b != 0)
+                g = gm.get(s_, np.zeros_like(b))
+                if np.any(pure) and not np.array_equal(g[pure], b[pure] * sc):
+                    bad = f"a hopping of size 2^-{k} next to O(1) couplings is lost or altered in sector {s_}"
+                    break
+        if bad:
+            ctx.violation(bad, case, triggers={"tiny_coefficients"}, op=name)
+            return
+
+
 def stream_order(ctx):
     import symmray as sr
 
@@ -951,6 +1012,7 @@ def run(ctx):
 
     # ---- (d), (e)
     stream_complex(ctx)
+    stream_scaling(ctx)
     stream_order(ctx)
 
 
